@@ -46,9 +46,9 @@ fn main() {
         }
         // C08: non-finite basis function values must not hang or panic
         "nonfinite_phi" => {
-            let v = match a.get(2).map(|s| s.as_str()) { Some("nan") => f64::NAN, _ => -0.1 };
+            let v = match a.get(2).map(|s| s.as_str()) { Some("nan") => f64::NAN, _ => -0.001 };
             let mut problem = LevMarProblemBuilder::new(model(10, 2, 2)).observations(data(10)).build().unwrap();
-            problem.set_params(&DVector::from_vec(vec![v, 2.0])); // exp(x/0.1) overflows to +inf for x = 9... ; or NaN
+            problem.set_params(&DVector::from_vec(vec![v, 2.0])); // exp(x/0.001) overflows to +inf ; or NaN
             println!("NOT-REPRODUCED: set_params returned; residuals = {:?}", problem.residuals().map(|r| r.len()));
         }
         // C12: N <= M + P must give Err in every build profile
